@@ -365,6 +365,7 @@ pub struct OutReq {
     body: RequestBody,
     tx_per_key: BTreeMap<Option<KeyT>, u32>,
     responses_seen: u64,
+    first_total: u64,
 }
 
 pub struct World {
@@ -384,6 +385,8 @@ pub struct World {
     reqs: Vec<OutReq>,
     /// WHOAREYOU packets the local node has sent and that are not answered/expired: (peer, cd bytes, nonce, sent at)
     out_challenges: Vec<(usize, Vec<u8>, MessageNonce, u64, SocketAddr)>,
+    /// challenges whose timer has certainly run out (the live ledger over-approximates)
+    expired_challenges: Vec<(usize, Vec<u8>, MessageNonce, u64, SocketAddr)>,
     consumed_cds: BTreeSet<Vec<u8>>,
     pending_wru: Vec<(WhoAreYouRef, usize)>,
     pending_app_reqs: Vec<(NodeAddress, RequestId, usize)>,
@@ -475,6 +478,7 @@ impl World {
             now: 0,
             reqs: vec![],
             out_challenges: vec![],
+            expired_challenges: vec![],
             consumed_cds: BTreeSet::new(),
             pending_wru: vec![],
             pending_app_reqs: vec![],
@@ -872,8 +876,12 @@ impl Runner {
                         msgs.push(format!("event for request after its terminal outcome (Response after {})", q.terminal));
                     }
                     q.responses_seen += 1;
+                    // (the number of packets of a NODES answer is the total its first packet announces)
+                    if let (ResponseBody::Nodes { total, .. }, 1) = (&r.body, q.responses_seen) {
+                        q.first_total = *total;
+                    }
                     let terminal = match &r.body {
-                        ResponseBody::Nodes { total, .. } => *total <= 1 || q.responses_seen >= *total,
+                        ResponseBody::Nodes { .. } => q.first_total <= 1 || q.responses_seen >= q.first_total,
                         _ => true,
                     };
                     if terminal {
@@ -951,7 +959,7 @@ impl Runner {
                         let key = Some(k.clone());
                         if !self.w.reqs.iter().any(|q| q.rid == *rid) {
                             // an internal request
-                            self.w.reqs.push(OutReq { peer: pi, rid: *rid, rid_bytes: vec![], external: false, with_enr: false, nonce: p.nonce, first_tx: now, answered: false, terminal: 0, body: RequestBody::FindNode { distances: vec![0] }, tx_per_key: BTreeMap::new(), responses_seen: 0 });
+                            self.w.reqs.push(OutReq { peer: pi, rid: *rid, rid_bytes: vec![], external: false, with_enr: false, nonce: p.nonce, first_tx: now, answered: false, terminal: 0, body: RequestBody::FindNode { distances: vec![0] }, tx_per_key: BTreeMap::new(), responses_seen: 0, first_total: 0 });
                         }
                         let retries = self.w.retries as u32;
                         let mut over = false;
@@ -1049,8 +1057,7 @@ impl Runner {
             settle().await;
             self.collect();
             // expiry of our challenges
-            let now = self.w.now;
-            self.w.out_challenges.retain(|(_, _, _, t, _)| t + TIMEOUT_MS > now);
+            self.expire_challenges();
             // one model step per grid instant at which something was observed: a step then holds
             // the timers of (nearly always) one deadline only
             if !self.buffered_outs.is_empty() || !self.buffered_wires.is_empty() {
@@ -1066,8 +1073,18 @@ impl Runner {
         self.w.now += GRID_MS;
         settle().await;
         self.collect();
+        self.expire_challenges();
+    }
+
+    fn expire_challenges(&mut self) {
         let now = self.w.now;
-        self.w.out_challenges.retain(|(_, _, _, t, _)| t + TIMEOUT_MS > now);
+        let (live, dead): (Vec<_>, Vec<_>) = self.w.out_challenges.drain(..).partition(|(_, _, _, t, _)| t + TIMEOUT_MS > now);
+        self.w.out_challenges = live;
+        self.w.expired_challenges.extend(dead);
+        let n = self.w.expired_challenges.len();
+        if n > 8 {
+            self.w.expired_challenges.drain(..n - 8);
+        }
     }
 
     fn contact_of(&self, pi: usize, with_enr: bool) -> NodeContact {
@@ -1103,7 +1120,7 @@ impl Runner {
         }
         let b = self.w.it.body(&body);
         let cc = self.coq_contact(&contact);
-        self.w.reqs.push(OutReq { peer: pi, rid, rid_bytes: id.0.clone(), external: true, with_enr, nonce: [0; 12], first_tx: 0, answered: false, terminal: 0, body: body.clone(), tx_per_key: BTreeMap::new(), responses_seen: 0 });
+        self.w.reqs.push(OutReq { peer: pi, rid, rid_bytes: id.0.clone(), external: true, with_enr, nonce: [0; 12], first_tx: 0, answered: false, terminal: 0, body: body.clone(), tx_per_key: BTreeMap::new(), responses_seen: 0, first_total: 0 });
         let _ = self.vh.to_handler.send(HandlerIn::Request(contact, Box::new(Request { id, body })));
         settle().await;
         self.close_step(format!("EvRequest {} {} {}", cc, rid, b));
@@ -1118,7 +1135,7 @@ impl Runner {
         let rid = self.w.it.rid(&id);
         let b = self.w.it.body(&body);
         let cc = self.coq_contact(&contact);
-        self.w.reqs.push(OutReq { peer: 0, rid, rid_bytes: id.0.clone(), external: true, with_enr: false, nonce: [0; 12], first_tx: 0, answered: false, terminal: 0, body: body.clone(), tx_per_key: BTreeMap::new(), responses_seen: 0 });
+        self.w.reqs.push(OutReq { peer: 0, rid, rid_bytes: id.0.clone(), external: true, with_enr: false, nonce: [0; 12], first_tx: 0, answered: false, terminal: 0, body: body.clone(), tx_per_key: BTreeMap::new(), responses_seen: 0, first_total: 0 });
         let _ = self.vh.to_handler.send(HandlerIn::Request(contact, Box::new(Request { id, body })));
         settle().await;
         self.close_step(format!("EvRequest {} {} {}", cc, rid, b));
@@ -1275,10 +1292,19 @@ impl Runner {
     }
 
     async fn net_handshake(&mut self, rng: &mut Rng, ch: usize, variant: HsVariant) {
-        if self.w.out_challenges.is_empty() {
+        // a quarter of the handshakes answer a challenge whose timer has run out (if there is one)
+        let late = ch % 4 == 3 && !self.w.expired_challenges.is_empty();
+        if !late && self.w.out_challenges.is_empty() {
             return;
         }
-        let (pi, cd, _nonce, _, ch_addr) = self.w.out_challenges[ch % self.w.out_challenges.len()].clone();
+        let (pi, cd, _nonce, _, ch_addr) = if late {
+            self.w.expired_challenges[(ch / 4) % self.w.expired_challenges.len()].clone()
+        } else {
+            self.w.out_challenges[ch % self.w.out_challenges.len()].clone()
+        };
+        if late {
+            self.w.hist.add("handshake:for_expired_challenge");
+        }
         let local_id = self.w.local_id;
         let local_pk = self.w.local_enr.public_key();
         let pid = self.w.peers[pi].id;
@@ -1362,7 +1388,7 @@ impl Runner {
         }
         let src = ch_addr;
         let honest_signer = signer == pi && !ed_signer;
-        if honest_signer && !matches!(variant, HsVariant::BadSignature | HsVariant::BadEphemeral | HsVariant::WrongStatic) {
+        if honest_signer && !late && !matches!(variant, HsVariant::BadSignature | HsVariant::BadEphemeral | HsVariant::WrongStatic) {
             // the peer now shares these keys: it encrypts with the initiator key
             self.w.peers[pi].keys.push((ik, rk));
         }
@@ -1384,7 +1410,16 @@ impl Runner {
             // the tampered copy consumes the challenge without establishing anything usable
             self.w.peers[pi].keys.pop();
         }
-        self.inject(src, bytes, "handshake", signer, tampered, forged).await;
+        let n_late = self.steps.len();
+        self.inject(src, bytes, if late { "late-handshake" } else { "handshake" }, signer, tampered, forged).await;
+        if late {
+            // C03: answering after the challenge expired never creates or re-keys a session
+            let acted = self.steps[n_late..].iter().any(|s| s.outs.iter().any(|o| matches!(o, AOut::Established(..) | AOut::Unverifiable(..) | AOut::Request(..) | AOut::Response(..))));
+            if acted {
+                self.w.failures.push(("C03".into(), "a handshake answering a WHOAREYOU whose timer had run out was accepted".into()));
+            }
+            return;
+        }
         if consumed {
             // whatever the outcome, a challenge is consumed by a handshake whose signature check was reached
             let cdc = cd.clone();
@@ -1651,6 +1686,7 @@ async fn run_case(seed: u64, idx: u64, focus: &str, thorough: bool, fixes: &str)
     let capacity = *rng.pick(&[1usize, 2, 1000, 1000]);
     let mut r = Runner::new(&mut rng, npeers, retries, capacity).await;
     let nmoves = if thorough { rng.range(30, 90) } else { rng.range(15, 45) };
+    let focus_prop = focus.chars().take(3).collect::<String>().to_uppercase();
     let mut moves = vec![];
     // scripted opening for the nonce property: several requests under the first keys, a re-key
     // started by the peer (it challenges an in-flight request), a message of the peer still under
@@ -1671,6 +1707,23 @@ async fn run_case(seed: u64, idx: u64, focus: &str, thorough: bool, fixes: &str)
             r.app_request(&mut rng, p, true, 2).await;
         }
         moves.push("scripted: requests, re-key by the peer, message under the old keys, requests".into());
+    }
+    // scripted opening: a FINDNODE answered by a NODES response in three packets (all delivered, or
+    // one missing), another request to the same peer in flight, then a full timeout passes
+    if matches!(focus, "c04" | "c13") && rng.chance(1, 5) {
+        let p = rng.below(npeers as u64) as usize;
+        r.app_request(&mut rng, p, true, 1).await;
+        let q0 = r.w.reqs.len() - 1;
+        r.net_whoareyou(&mut rng, FORCE + q0).await;
+        let packets = if rng.chance(2, 3) { 3 } else { 2 };
+        for i in 0..packets {
+            r.net_answer(&mut rng, FORCE + q0, 1).await;
+            if i == 1 && rng.chance(1, 2) {
+                r.app_request(&mut rng, p, true, 0).await;
+            }
+        }
+        r.advance(TIMEOUT_MS / GRID_MS + 2).await;
+        moves.push(format!("scripted: FINDNODE to peer {}, challenged, answered by {} of 3 NODES packets, a timeout passes", p, packets));
     }
     // scripted opening: dial a peer whose record is unknown; the peer challenges, we answer with a
     // handshake and ask for its record; the peer answers that request with its own or another record
@@ -1705,12 +1758,14 @@ async fn run_case(seed: u64, idx: u64, focus: &str, thorough: bool, fixes: &str)
             Move::NetMutate { idx, how, pos } => r.net_mutate(idx, how, pos).await,
             Move::Advance { steps } => r.advance(steps).await,
         }
-        if !r.w.failures.is_empty() {
+        // a case ends at the first failure of the property in focus; failures of other properties
+        // are recorded (and reported by their own checks) but do not cut the history short
+        if r.w.failures.iter().any(|f| f.0 == focus_prop) {
             break;
         }
     }
     // drain: let every timer expire, then everything must be settled
-    if r.w.failures.is_empty() {
+    if !r.w.failures.iter().any(|f| f.0 == focus_prop) {
         for _ in 0..(retries as u64 + 2) {
             r.advance(TIMEOUT_MS / GRID_MS + 2).await;
         }
@@ -1795,7 +1850,13 @@ async fn run_case(seed: u64, idx: u64, focus: &str, thorough: bool, fixes: &str)
     }
     let coq = format!("({}, {},\n [{}])", idx, cfg, steps.join(";\n  "));
     let established = r.steps.iter().any(|s| s.outs.iter().any(|o| matches!(o, AOut::Established(..))));
-    CaseOut { coq, failures: r.w.failures.clone(), steps: r.steps.len(), nontrivial: established, canon: h, hist: r.w.hist.clone(), moves }
+    let mut failures: Vec<(String, String)> = vec![];
+    for f in &r.w.failures {
+        if !failures.contains(f) {
+            failures.push(f.clone());
+        }
+    }
+    CaseOut { coq, failures, steps: r.steps.len(), nontrivial: established, canon: h, hist: r.w.hist.clone(), moves }
 }
 
 /// C15 at handler level (monitor only; the handler model has no expiry): a session idle for longer
